@@ -394,8 +394,8 @@ func writeEvidence(e *engine, verif, prop, tier string, seed int, results []*fnR
 	ev := evidence{PropertyID: prop, Tier: tier, Seed: seed, Level: "proof", Coverage: cov, WallS: float64(int(wall*100)) / 100, Violations: len(failed)}
 	ev.Assumptions = append(ev.Assumptions, meta.assumptions...)
 	ev.Assumptions = append(ev.Assumptions, sortedKeys(trusted)...)
-	ev.Assumptions = append(ev.Assumptions, "integers are mathematical (only comparisons and +1 on indices occur in functions under contract; other integer operators are rejected)",
-		"strings are uninterpreted (equality only); interface values and pointers share one reference sort, typed nil pointers inside interfaces are not distinguished from nil interfaces",
+	ev.Assumptions = append(ev.Assumptions, "definitional axioms of the spec functions in the theories (existence of a sorted arrangement / of the increasing enumeration of selecting positions, the recursive definition of NSName's partial entries, Go's string order being a strict total order)", "machine integers are treated as mathematical integers (comparisons, + - *, truncating / and %; no overflow is modelled; the functions under contract only count and index)",
+		"strings are uninterpreted values with equality, an uninterpreted concatenation and < axiomatised only as a strict total order; interface values and pointers share one reference sort, typed nil pointers inside interfaces are not distinguished from nil interfaces",
 		"logging calls are dropped (no effect on modelled state)", "objects are not mutated while cached (A-imm)")
 	os.MkdirAll(filepath.Join(verif, "evidence"), 0755)
 	data, _ := json.MarshalIndent(ev, "", " ")
@@ -408,7 +408,7 @@ var skipReplay bool
 var trustedBase = []string{
 	"go/packages + go/ssa (x/tools v0.29.0) build the SSA of /repo's working tree",
 	"this generator's SSA->SMT encoding (guarded by the must-fail/must-pass selftest corpus)",
-	"SMT solvers z3 5.1.0, z3 4.8.12, cvc5 1.0 (a sat/unsat disagreement or any (error ...) is an engine error, never a verdict)",
+	"SMT solvers z3 5.1.0, z3 4.8.12, cvc5 1.0 (a sat/unsat disagreement is an engine error, never a verdict; a query that every solver rejects as ill-sorted means a contract clause no longer fits the changed code and is a failed obligation)",
 	"Go memory model axioms used: fresh allocations are distinct from existing references; references read from the heap are allocated",
 }
 
